@@ -175,6 +175,7 @@ is32(int t)
 
 /* ---- part A: value round trip ---- */
 static unsigned char *encblk[2]; /* exact blocks of 5 and 10 octets */
+static unsigned char *encoff[2][8]; /* exact blocks of lead + 5 / lead + 10 octets: encodings into drained buffers */
 static unsigned char *blk2[24];  /* exact blocks for encodings at an offset, carved on demand */
 static unsigned char *decblk[12]; /* exact blocks of 1..11 octets */
 static const size_t offlead[3] = { 1, 9, 12 };
@@ -203,6 +204,42 @@ roundtrip(int t, uint64_t v)
     size_t len = api_length(t, v);
     if (len != (size_t)rn || len > max)
         vh_fail("length", key, "value=%016" PRIx64 " length query=%zu encoded=%d", v, len, rn);
+    /* the same into a buffer that was used and drained before (offset = used = k > 0, exactly the maximum length
+     * free behind it): the unread rest of the buffer is the encoding, nothing else is touched, and both decoders
+     * get the value back from that very buffer */
+    {
+        const size_t lead = 1 + (size_t)((v ^ (v >> 7)) % 7), tot = lead + max;
+        unsigned char **slot = &encoff[is32(t) ? 0 : 1][lead];
+        if (*slot == NULL)
+            *slot = vh_arena(tot);
+        unsigned char *ob = *slot, img[32];
+        memset(ob, 0xEE, tot);
+        for (size_t i = 0; i < lead; i++)
+            ob[i] = (unsigned char)(0x80 | i); /* consumed octets: continuation bits */
+        memcpy(img, ob, tot);
+        memcpy(img + lead, ref, (size_t)rn);
+        ByteBuffer ub;
+        byte_buffer_set(&ub, ob, tot, lead, lead);
+        rc = api_encode(t, &ub, v);
+        if (rc != rn || ub.offset != lead || ub.used != lead + (size_t)rn || ub.size != tot || memcmp(ob, img, tot) != 0)
+            vh_fail("encode-into-drained-buffer", key, "value=%016" PRIx64 " buffer offset=used=%zu size=%zu: rc=%d offset=%zu used=%zu memory %s expected %s",
+                    v, lead, tot, rc, ub.offset, ub.used, vh_hex(ob, tot), vh_hex(img, tot));
+        else {
+            ByteBuffer copy = ub;
+            Source bs;
+            source_from_buffer(&bs, &copy);
+            uint64_t gv = 0;
+            int r2 = api_from_source(t, &bs, &gv);
+            if (r2 != rn || gv != v || byte_buffer_rest(&copy) != 0)
+                vh_fail("encode-into-drained-buffer", key, "value=%016" PRIx64 " read back through a buffer source: rc=%d value=%016" PRIx64 " rest=%zu",
+                        v, r2, gv, byte_buffer_rest(&copy));
+            gv = 0;
+            r2 = api_decode(t, &ub, &gv);
+            if (r2 != rn || gv != v || ub.offset != ub.used)
+                vh_fail("encode-into-drained-buffer", key, "value=%016" PRIx64 " read back with the buffer decoder: rc=%d value=%016" PRIx64 " offset=%zu used=%zu",
+                        v, r2, gv, ub.offset, ub.used);
+        }
+    }
     /* sink variant */
     struct csink cs = { .n = 0 };
     Sink sink;
@@ -290,6 +327,7 @@ setup_blocks(void)
         for (int i = 0; i <= 11; i++)
             offblk[l][i] = vh_arena(offlead[l] + (size_t)i);
     memset(blk2, 0, sizeof blk2);
+    memset(encoff, 0, sizeof encoff);
 }
 
 static void
